@@ -374,7 +374,8 @@ func ruleSeqhash(c *Ctx, prop string) {
 	if len(raw) > 0 {
 		stD = broken
 		for _, r := range raw {
-			if strings.HasPrefix(r, "poly/") { // handed to a same-module helper: not followed
+			casePreserving := map[string]bool{"poly/transform.ReverseComplement": true, "poly/transform.Complement": true, "poly/transform.Reverse": true, "poly/seqhash.RotateSequence": true}
+			if strings.HasPrefix(r, "poly/") && !casePreserving[r] { // handed to another helper of the module: not followed
 				stD = unknown
 			}
 		}
